@@ -23,10 +23,10 @@ C ↔ model
   cl->state                                       ↔ `Conn.phase`
   cl->enableExtendedClipboard, tight extension    ↔ `Conn.extClip`, `Conn.tightExt`
 
-The pixel-format check and the zero-width scale check model the FIXED code
-(fixes/C04-pixfmt-validate.diff, fixes/C04-scale-zero-width.diff); `Gen.C04.pixfmtChannelsChecked`
-and `Gen.C04.scaleRejectsZeroWidth` (regenerated from the tree on every run) say whether the tree
-has them, and the property theorems that need the fixes are stated against these flags.
+The pixel-format channel check models the FIXED code (fixes/C04-pixfmt-validate.diff); the
+zero-width scale check is in the tree since 916387d.  `Gen.C04.pixfmtChannelsChecked` and
+`Gen.C04.scaleRejectsZeroWidth` (regenerated from the tree on every run) say whether the tree has
+them; Props/C04.lean has one `tree_*` theorem per flag, which breaks on a tree without the check.
 Core Lean only.
 -/
 namespace VncModel.Robust
